@@ -146,7 +146,7 @@ func init() { Registry["C02"] = C02 }
 
 // C02: URL-carried fields reach the handler with the URL's value, for every verb.
 func C02(c *Ctx, r *report.Run) error {
-	r.Rule = "for every RPC with path variables and/or query parameters (verbs GET/POST/PUT/DELETE/PATCH, every scalar kind the generators accept, singular/optional/repeated query fields, renamed and required parameters) x every URL-bound field x URL value {every boundary value of the kind, zero, malformed and out-of-range spellings, missing required/optional, repeated occurrence} x body {absent, empty, {}, object omitting the URL-bound fields}: raw request to the generated Go server; oracle = M-pipe: valid -> handler runs once and sees the URL's value in every URL-bound field; unconvertible / missing required -> 400 with a violation naming the field and no dispatch; distinct = (unit, rpc, slot, outcome)"
+	r.Rule = "for every RPC with path variables and/or query parameters (verbs GET/POST/PUT/DELETE/PATCH, every scalar kind the generators accept, singular/optional/repeated query fields, renamed and required parameters) x every URL-bound field x URL value {every boundary value of the kind, zero, malformed and out-of-range spellings, missing required/optional, repeated occurrence} x body {absent, empty, {}, object omitting the URL-bound fields}: raw request to the generated Go server and to the generated TS server (node bridge); oracle = M-pipe: valid -> handler runs once and sees the URL's value in every URL-bound field; unconvertible / missing required -> 400 with a violation naming the field and no dispatch; distinct = (unit, rpc, slot, outcome)"
 	var specs []*spec.Spec
 	for _, s := range serviceSpecs(c) {
 		if !hasTag(s, "ctx") && !hasTag(s, "route") {
@@ -154,7 +154,7 @@ func C02(c *Ctx, r *report.Run) error {
 		}
 	}
 	r.Programs = len(specs)
-	w, err := ws.Build(c.Bins, specs, ws.Options{Variant: ws.H, Tag: "rtH3", Harness: true})
+	w, err := ws.Build(c.Bins, specs, ws.Options{Variant: ws.H, Tag: "rtH2ts", Harness: true, TS: true})
 	if err != nil {
 		return err
 	}
@@ -162,9 +162,19 @@ func C02(c *Ctx, r *report.Run) error {
 	if err := RunHarness(c, w, r, "c02", units, nil, specIndex(w)); err != nil {
 		return err
 	}
+	// the same cases against the generated TS server (single-file units: one server module per unit)
+	var tsUnits []rt.JobUnit
+	for _, ju := range units {
+		if u := w.Unit(ju.Name); u != nil && len(u.Spec.Files) == 1 {
+			tsUnits = append(tsUnits, ju)
+		}
+	}
+	if err := c02TS(c, r, w, tsUnits); err != nil {
+		return err
+	}
 	r.States, r.Transitions, r.Traces = r.Evaluations, r.Evaluations, r.Evaluations
 	r.Assumptions = []string{"a repeated occurrence of a singular query parameter is not judged (the contract does not say which occurrence wins); empty path segments and the dot segments '.' and '..' are not sent",
-		"the TS server's URL binding is exercised by C08's bridge run"}
+		"the same raw requests go to the generated TS server through the node bridge (fetch Request objects): the handler's argument is observed as JSON, so non-finite floats and numbers beyond 2^53 are not judged there, a 64-bit value may arrive as a decimal string or a number of the same value, and an absent member counts as the zero value"}
 	return nil
 }
 
